@@ -48,6 +48,18 @@ AtomBodies_def == I1_def \o Prod2(Alt2, Leaves_def, L2_def \o Leaves_def)
 LookLeaves_def == Prod2(LAMBDA l, x : Un(l, x), Looks_def, Leaves_def) \o <<>>
 L2Leaves_def   == L2_def \o Leaves_def
 DotReps_def    == <<Dot, Rep(Dot, <<0, -1, FALSE>>), Rep(Dot, <<1, -1, TRUE>>)>>
+\* loop bodies of three items: a letter, a loop, a nullable loop (what follows a loop inside an iterated body is the
+\* body's own beginning on the next iteration)
+Abc_def        == <<Chr(a), Chr(b), Cls(<< <<a, a>>, <<b, b>> >>, FALSE)>>
+MidLoops_def   == Prod2(Rep, Abc_def, << <<0, -1, FALSE>>, <<1, -1, FALSE>>, <<0, -1, TRUE>> >>) \o <<>>
+EndLoops_def   == Prod2(Rep, <<Chr(a), Chr(b)>>, << <<0, 1, FALSE>>, <<0, -1, FALSE>>, <<0, 1, TRUE>> >>) \o <<>>
+Body3_def      == Prod3(LAMBDA x, y, z : Cat3(x, y, z), Abc_def, MidLoops_def, EndLoops_def) \o <<>>
+Tails_def      == <<Chr(a), Chr(b), Empty, Op("z")>>
+\* loops over classes that contain the newline, in front of the end anchors (what may follow such a loop decides
+\* whether it may be made atomic / greedy)
+NLItems_def    == <<Sh("s"), Sh("W"), Sh("D"), Cls(<< <<a, a>>, <<b, b>> >>, TRUE), Chr(10), Cls(<< <<10, 10>>, <<a, a>> >>, FALSE)>>
+NLLoops_def    == Prod2(Rep, NLItems_def, Quants_def) \o <<>>
+EndAnchors_def == <<Op("dollar"), Op("Z"), Op("z"), OptG(<<"m">>, <<>>, Op("dollar")), Op("b"), Op("B"), Cat2(Op("dollar"), Chr(10))>>
 
 \* A family is the product of two or three small factor sequences; its i-th tree is computed by index
 \* arithmetic, so no family is ever materialised.
@@ -56,14 +68,14 @@ Ix3(i, S1, S2, S3, which) == IF which = 1 THEN S1[((i - 1) \div (Len(S2) * Len(S
                              ELSE IF which = 2 THEN S2[(((i - 1) \div Len(S3)) % Len(S2)) + 1]
                              ELSE S3[((i - 1) % Len(S3)) + 1]
 
-FamNames == <<"seq2", "seq3", "alt2", "altseq", "seqalt", "grpq", "grpq2", "ncgq", "ref", "refq", "named", "look", "look2", "lookg", "atom", "anchor", "anchor2", "cond", "condx", "nested", "opti", "optm", "opts">>
-FamSizes_def == <<Len(I1_def) * Len(I1_def), Len(I1_def) * Len(I1_def) * Len(Leaves_def), Len(I1_def) * Len(I1_def), Len(I1_def) * Len(I1_def) * Len(Leaves_def), Len(I1_def) * Len(I1_def) * Len(Leaves_def), Len(QBodies_def) * Len(Quants_def) * Len(LeavesE_def), Len(Bodies_def) * Len(Quants_def) * Len(I1_def), Len(NcgBodies_def) * Len(Quants_def) * Len(I1_def), Len(I1_def) * Len(ELeaves_def) * Len(RefTails_def), Len(I1_def) * Len(Quants_def) * Len(Leaves_def), Len(NamedHeads_def) * Len(Leaves_def) * Len(NamedTails_def), Len(Looks_def) * Len(I1_def) * Len(I1_def), Len(Looks_def) * Len(I1_def) * Len(I1_def), Len(Looks_def) * Len(QBodies_def) * Len(LeavesE_def), Len(AtomBodies_def) * Len(I1_def), Len(Anchors_def) * Len(I1_def) * Len(AnchorsE_def), Len(I1_def) * Len(Anchors_def) * Len(LeavesDS_def), Len(Leaves_def) * Len(I1_def) * Len(LeavesE_def), Len(LookLeaves_def) * Len(I1_def) * Len(LeavesE_def), Len(L2Leaves_def) * Len(Quants_def) * Len(Leaves_def), Len(I1_def) * Len(I1_def) * Len(Leaves_def), Len(Anchors_def) * Len(I1_def) * Len(Anchors_def), Len(I1_def) * Len(DotReps_def) * Len(I1_def)>>
+FamNames == <<"seq2", "seq3", "alt2", "altseq", "seqalt", "grpq", "grpq2", "ncgq", "ref", "refq", "named", "look", "look2", "lookg", "atom", "anchor", "anchor2", "cond", "condx", "nested", "opti", "optm", "opts", "body3", "body3g", "nlend">>
+FamSizes_def == <<Len(I1_def) * Len(I1_def), Len(I1_def) * Len(I1_def) * Len(Leaves_def), Len(I1_def) * Len(I1_def), Len(I1_def) * Len(I1_def) * Len(Leaves_def), Len(I1_def) * Len(I1_def) * Len(Leaves_def), Len(QBodies_def) * Len(Quants_def) * Len(LeavesE_def), Len(Bodies_def) * Len(Quants_def) * Len(I1_def), Len(NcgBodies_def) * Len(Quants_def) * Len(I1_def), Len(I1_def) * Len(ELeaves_def) * Len(RefTails_def), Len(I1_def) * Len(Quants_def) * Len(Leaves_def), Len(NamedHeads_def) * Len(Leaves_def) * Len(NamedTails_def), Len(Looks_def) * Len(I1_def) * Len(I1_def), Len(Looks_def) * Len(I1_def) * Len(I1_def), Len(Looks_def) * Len(QBodies_def) * Len(LeavesE_def), Len(AtomBodies_def) * Len(I1_def), Len(Anchors_def) * Len(I1_def) * Len(AnchorsE_def), Len(I1_def) * Len(Anchors_def) * Len(LeavesDS_def), Len(Leaves_def) * Len(I1_def) * Len(LeavesE_def), Len(LookLeaves_def) * Len(I1_def) * Len(LeavesE_def), Len(L2Leaves_def) * Len(Quants_def) * Len(Leaves_def), Len(I1_def) * Len(I1_def) * Len(Leaves_def), Len(Anchors_def) * Len(I1_def) * Len(Anchors_def), Len(I1_def) * Len(DotReps_def) * Len(I1_def), Len(Body3_def) * Len(Quants_def) * Len(Tails_def), Len(Body3_def) * Len(Quants_def) * Len(Tails_def), Len(ELeaves_def) * Len(NLLoops_def) * Len(EndAnchors_def)>>
 
 NF == Len(FamNames)
 CumTab_def == [k \in 0..NF |-> LET RECURSIVE Cum(_) Cum(m) == IF m = 0 THEN 0 ELSE Cum(m - 1) + FamSizes_def[m] IN Cum(k)]
 Selected_def == {k \in 1..NF : FamNames[k] \in SeqToSet(Params.families)}
 
-K_def == [Inputs |-> Inputs_def, Leaves |-> Leaves_def, Quants |-> Quants_def, QLeaves |-> QLeaves_def, I1 |-> I1_def, L2 |-> L2_def, Anchors |-> Anchors_def, Looks |-> Looks_def, Bodies |-> Bodies_def, QBodies |-> QBodies_def, LeavesE |-> LeavesE_def, ELeaves |-> ELeaves_def, AnchorsE |-> AnchorsE_def, LeavesDS |-> LeavesDS_def, NcgBodies |-> NcgBodies_def, RefTails |-> RefTails_def, NamedHeads |-> NamedHeads_def, NamedTails |-> NamedTails_def, AtomBodies |-> AtomBodies_def, LookLeaves |-> LookLeaves_def, L2Leaves |-> L2Leaves_def, DotReps |-> DotReps_def, FamSizes |-> FamSizes_def, CumTab |-> CumTab_def, Selected |-> Selected_def]
+K_def == [Inputs |-> Inputs_def, Leaves |-> Leaves_def, Quants |-> Quants_def, QLeaves |-> QLeaves_def, I1 |-> I1_def, L2 |-> L2_def, Anchors |-> Anchors_def, Looks |-> Looks_def, Bodies |-> Bodies_def, QBodies |-> QBodies_def, LeavesE |-> LeavesE_def, ELeaves |-> ELeaves_def, AnchorsE |-> AnchorsE_def, LeavesDS |-> LeavesDS_def, NcgBodies |-> NcgBodies_def, RefTails |-> RefTails_def, NamedHeads |-> NamedHeads_def, NamedTails |-> NamedTails_def, AtomBodies |-> AtomBodies_def, LookLeaves |-> LookLeaves_def, L2Leaves |-> L2Leaves_def, DotReps |-> DotReps_def, Body3 |-> Body3_def, Tails |-> Tails_def, NLLoops |-> NLLoops_def, EndAnchors |-> EndAnchors_def, FamSizes |-> FamSizes_def, CumTab |-> CumTab_def, Selected |-> Selected_def]
 ASSUME TLCSet(5, K_def)
 K == TLCGet(5)
 Inputs == K.Inputs
@@ -88,6 +100,10 @@ AtomBodies == K.AtomBodies
 LookLeaves == K.LookLeaves
 L2Leaves == K.L2Leaves
 DotReps == K.DotReps
+Body3 == K.Body3
+Tails == K.Tails
+NLLoops == K.NLLoops
+EndAnchors == K.EndAnchors
 FamSizes == K.FamSizes
 CumTab == K.CumTab
 Selected == K.Selected
@@ -116,6 +132,9 @@ FamTree(k, i) ==
     [] k = 21 -> LET x1 == Ix3(i, I1, I1, Leaves, 1)  x2 == Ix3(i, I1, I1, Leaves, 2)  x3 == Ix3(i, I1, I1, Leaves, 3) IN Cat3(x1, OptG(<<"i">>, <<>>, x2), x3)
     [] k = 22 -> LET x1 == Ix3(i, Anchors, I1, Anchors, 1)  x2 == Ix3(i, Anchors, I1, Anchors, 2)  x3 == Ix3(i, Anchors, I1, Anchors, 3) IN Cat3(OptG(<<"m">>, <<>>, x1), x2, OptG(<<>>, <<"m">>, x3))
     [] k = 23 -> LET x1 == Ix3(i, I1, DotReps, I1, 1)  x2 == Ix3(i, I1, DotReps, I1, 2)  x3 == Ix3(i, I1, DotReps, I1, 3) IN Cat3(x1, OptG(<<"s">>, <<>>, x2), x3)
+    [] k = 24 -> LET x1 == Ix3(i, Body3, Quants, Tails, 1)  x2 == Ix3(i, Body3, Quants, Tails, 2)  x3 == Ix3(i, Body3, Quants, Tails, 3) IN Cat2(Rep(x1, x2), x3)
+    [] k = 25 -> LET x1 == Ix3(i, Body3, Quants, Tails, 1)  x2 == Ix3(i, Body3, Quants, Tails, 2)  x3 == Ix3(i, Body3, Quants, Tails, 3) IN Cat2(Rep(Grp(x1), x2), x3)
+    [] k = 26 -> LET x1 == Ix3(i, ELeaves, NLLoops, EndAnchors, 1)  x2 == Ix3(i, ELeaves, NLLoops, EndAnchors, 2)  x3 == Ix3(i, ELeaves, NLLoops, EndAnchors, 3) IN Cat3(x1, x2, x3)
 
 NFam == CumTab[NF]
 FamIdx(pid) == CHOOSE k \in 1..NF : CumTab[k - 1] < pid /\ pid <= CumTab[k]
